@@ -375,6 +375,11 @@ func genTable(r *rand.Rand, model, param string, n int) []float64 {
 		for k := range t {
 			t[k] = r.Float64()
 		}
+		if r.Intn(3) == 0 {
+			// a table that is not a proportion everywhere (nothing in the model or its description forbids it; whatever a
+			// kernel does about such values it must do to its own copy, not to the caller's parameter array)
+			t[r.Intn(n)] = []float64{1.5, -0.25, 2}[r.Intn(3)]
+		}
 	case "Storage.levels":
 		for k := range t {
 			t[k] = 10 * float64(k)
